@@ -30,9 +30,9 @@ HARNESSES = [
       bounds='nElements 2, 3-5 insertions, 1-2 hash functions, 2-4 data words, 4-byte keys, tweak symbolic', backends=['default', 'cvc5', 'kissat'], **COMMON),
     H('fastrange', 'bloom.cpp', 'h_fastrange', link=BL, unwind=2, functions=['FastRange32'], variants=[{'NBITS': 12}], tvariants=[{'NBITS': 12}, {'NBITS': 20}], bounds='all 32-bit x, 0<n<2^12 (thorough 2^20)', backends=['default', 'cvc5int', 'z3', 'kissat'], **COMMON),
 ] + [
-    H(name, 'golomb.cpp', 'h_golomb', link=[], variants=qv, tvariants=tv, unwind=max(max(v['GP'], v['GQ']) for v in tv + qv) + 4, unwindset=golomb_us, objbits=11,
+    H(name, 'golomb.cpp', 'h_golomb', link=[], variants=qv, tvariants=tv, unwind=max(max(v['GP'], v['GQ']) for v in tv + qv) + 4, unwindset=golomb_us, objbits=11, **dict(COMMON, timeout=600),
       functions=['GolombRiceEncode', 'GolombRiceDecode', 'BitStreamWriter::Write/Flush', 'BitStreamReader::Read'],
-      bounds='Rice parameter P and quotient range per variant; every start bit offset 0..7 (step GOSTEP) x every quotient GQ0..GQ; remainder and preceding bits fully symbolic', **COMMON)
+      bounds='Rice parameter P and quotient range per variant; every start bit offset 0..7 (step GOSTEP) x every quotient GQ0..GQ; remainder and preceding bits fully symbolic')
     for name, qv, tv in (
         ('golomb_p19', [{'GP': 19, 'GQ': 1}], [{'GP': 19, 'GQ': 8}, {'GP': 20, 'GQ': 4}]),
         ('golomb_p1', [{'GP': 1, 'GQ': 2}], [{'GP': 1, 'GQ': 12}, {'GP': 3, 'GQ': 9}, {'GP': 8, 'GQ': 8}]),
